@@ -16,6 +16,9 @@ ALSO = {
     "C05-unpack-s8-test": ["C08"], "C18-trim-trailing-nul": [], "C13-writer-double-put": [],
     "C06-boundary-before-fallback": ["C14"], "C18-index-in-lowered-copy": ["C03"], "C16-serialize-full-value": ["C11"],
     "C20-fixed-pad-written-count": ["C01"], "C10-cmpp30-activetest-fastpath": ["C03"],
+    "C03-parse-header7-guard": ["C07"], "C11-cmpp20-dest-u8-product": ["C01", "C02"], "C02-smgp-submit-time-order": ["C01"],
+    "C14-boundary-hoisted-before-fallback": ["C06"], "C08-validator-ascii-fastpath": ["C05", "C09"], "C12-private-writer-no-copy": ["C13"],
+    "C07-header7-only-rejected": ["C03"],
 }
 
 
